@@ -1,4 +1,5 @@
 import ZipVerif.Basic.Bits
+import ZipVerif.Spec.Dos
 /-
 Model of `zip::DateTime` (src/types.rs): DOS bit packing, the range-checked constructor and the
 conversions to and from calendar time.  Bit operations mirror the Rust text; the arithmetic
@@ -65,21 +66,22 @@ structure Cal where
   second : Nat
   deriving DecidableEq, Repr
 
-def isLeap (y : Int) : Bool := (y % 4 == 0) && ((y % 100 != 0) || (y % 400 == 0))
-
-def daysInMonth (y : Int) (m : Nat) : Nat :=
-  match m with
-  | 1 | 3 | 5 | 7 | 8 | 10 | 12 => 31
-  | 4 | 6 | 9 | 11 => 30
-  | 2 => if isLeap y then 29 else 28
-  | _ => 0
-
 /-- Validity as enforced by `Date::from_calendar_date` + `Time::from_hms` (years within the
-crate's default ±9999 window; the DOS range is far inside it). -/
+crate's default ±9999 window; the DOS range is far inside it).  The calendar rule is the explicit
+`Spec.Dos.daysInMonth` (Gregorian), a PARAMETER as far as the `time` crate is concerned: validated
+against `time` on every (year, month) of 1980..2107 by the `dos.dim` correspondence. -/
 def Cal.valid (c : Cal) : Bool :=
   (-9999 ≤ c.year && c.year ≤ 9999) && (1 ≤ c.month && c.month ≤ 12) &&
-  (1 ≤ c.day && c.day ≤ daysInMonth c.year c.month) &&
+  (1 ≤ c.day && c.day ≤ Spec.Dos.daysInMonth c.year c.month) &&
   c.hour ≤ 23 && c.minute ≤ 59 && c.second ≤ 59
+
+/-- The part of `valid` that looks at the date fields only (`Date::from_calendar_date`) … -/
+def Cal.dateValid (c : Cal) : Bool :=
+  (-9999 ≤ c.year && c.year ≤ 9999) && (1 ≤ c.month && c.month ≤ 12) &&
+  (1 ≤ c.day && c.day ≤ Spec.Dos.daysInMonth c.year c.month)
+
+/-- … and the part that looks at the clock fields only (`Time::from_hms`). -/
+def Cal.timeValid (c : Cal) : Bool := c.hour ≤ 23 && c.minute ≤ 59 && c.second ≤ 59
 
 /-- `DateTime::to_time`: `none` is `Err(ComponentRange)`. -/
 def DateTime.cal (x : DateTime) : Cal :=
@@ -96,6 +98,24 @@ def DateTime.tryFromCal (c : Cal) : Option DateTime :=
       UInt8.ofNat c.minute, UInt8.ofNat c.second⟩
   else none
 
+
+/-! ### The same conversions with what an `OffsetDateTime` carries besides the six fields -/
+
+/-- `time::OffsetDateTime` as far as the two conversions can tell: the wall-clock fields IN ITS OWN
+OFFSET, the sub-second part, and the UTC offset in seconds. -/
+structure OCal where
+  cal : Cal
+  nanos : Nat
+  offset : Int
+  deriving DecidableEq, Repr
+
+/-- `impl TryFrom<OffsetDateTime>`: reads `dt.year() … dt.second()`, i.e. the LOCAL fields; the offset
+and the nanoseconds are not looked at. -/
+def DateTime.tryFromO (o : OCal) : Option DateTime := DateTime.tryFromCal o.cal
+
+/-- `to_time`: `PrimitiveDateTime::new(date, Time::from_hms(..)).assume_utc()` - offset UTC,
+nanosecond 0. -/
+def DateTime.toTimeO (x : DateTime) : Option OCal := x.toTime.map fun c => ⟨c, 0, 0⟩
 
 /-- Values obtainable through the public API: `default`, `from_msdos`, `from_date_and_time`,
 `TryFrom<OffsetDateTime>` / `from_time` (`tryFromCal` of a valid calendar value). -/
